@@ -560,7 +560,7 @@ def scenarios(c):
         return out
     integs = list(INTEGS)
     rng.shuffle(integs)
-    nmain = len(integs) if c.thorough else 6
+    nmain = len(integs)
     # always whfast (default) first: the reference scenario
     integs.remove("whfast")
     integs = ["whfast"] + integs
@@ -587,8 +587,8 @@ def server_part(c, d, rebound, fmt, exe, shim, offs, boost):
                             "exact_but_save_load_not_continuable(C05)")}
     tmpdir = tempfile.mkdtemp(prefix="ld.", dir=d)
     S = scenarios(c)
-    if boost:
-        S = S + scenarios(c) + scenarios(c)
+    for _ in range((2 if boost else 0) + (7 if c.thorough else 0)):
+        S = S + scenarios(c)
     lines, metas = [], []
     mutlines, mutmeta = [], []
     evhist = {}
@@ -619,15 +619,20 @@ def server_part(c, d, rebound, fmt, exe, shim, offs, boost):
         toks = open(os.path.join(res["out"], "trace.txt")).read().split()
         for t in toks:
             evhist[t.split(":")[0]] = evhist.get(t.split(":")[0], 0) + 1
-        # did a serialisation overlap an unlocked write in this trace?
-        inser = False
+        # how many serialisations overlapped an unlocked write of r (F18 window) in this trace?
+        inser = inadj = hit = False
         for t in toks:
+            t = t.split(":")[0]
             if t == "sSerBegin":
-                inser = True
+                inser, hit = True, inadj
             elif t == "sSerEnd":
-                inser = False
-            elif inser and t in ("iChkSync", "iEpiSync", "iEnter"):
-                overlap += 1
+                overlap += 1 if hit else 0
+                inser = hit = False
+            elif t in ("iChkSync", "iEpiSync", "iEnter"):
+                inadj = True
+                hit = hit or inser
+            elif t in ("iChkBegin", "iChkEnd1", "iChkEnd0", "iLeave"):
+                inadj = False
         lines.append("A tr%d " % si + " ".join(toks))
         metas.append((tag, sp, res, len(toks)))
         ntr += 1
@@ -717,7 +722,7 @@ def par_task(rebound, fmt, sp, tmpdir, ident):
 def parallel_part(c, d, rebound, fmt, boost):
     tmpdir = tempfile.mkdtemp(prefix="par.", dir=d)
     k = 20
-    reps = (12 if c.thorough else 5) * (4 if boost else 1)
+    reps = (80 if c.thorough else 6) * (4 if boost else 1)
     ident = [0]
     nmis = 0
     overl = []
